@@ -16,7 +16,8 @@ RULES = [
 
 UNIT = dict(
     name="cursor_hydrate",
-    props=["C11", "C06"],
+    props=["C11", "C06", "C12"],
+    implicit_props=["C11", "C06"],
     prelude=["core_types.rs", "str_ext.rs", "engine.rs"],
     assumptions=[
         "R14 region: the body for one topic that has a persisted cursor; the iteration over the reader map (std HashMap iterator), the two RwLock acquisitions around it and the `continue` on a poisoned lock are not in the unit",
@@ -32,8 +33,11 @@ UNIT = dict(
              rules=RULES,
              loops={0: dict(kind="for", n_loops=1, expect=r"set_checkpointed_true\(info\.chain\[i\]",
                             invariant=[("", "ib <= info.chain.len()"), ("", "info.chain@ == old(info).chain@"),
-                                       ("C06:every_block_before_the_cursor_is_marked_consumed", "g.ckpt@ =~= old(g).ckpt@ + Seq::new(i as nat, |k: int| old(info).chain@[k].id)")])},
+                                       ("", "info.cur_block_idx == ib && g.ckpt@.len() >= old(g).ckpt@.len()"),
+                                       ("C12,C06:hydration_marks_only_blocks_the_cursor_has_completely_behind_it", "forall|k: int| old(g).ckpt@.len() <= k < g.ckpt@.len() ==> behind_cursor(info.chain@, ib as int, info.cur_block_offset, #[trigger] g.ckpt@[k])")])},
              requires=[],
+             hints=[dict(loop_body_end=0, text="                            proof { assert(behind_cursor(info.chain@, ib as int, info.cur_block_offset, info.chain@[i as int].id)); }"),
+                    dict(after="g.set_checkpointed_true(info.chain[ib].id as usize);", text="                            proof { assert(behind_cursor(info.chain@, ib as int, info.cur_block_offset, info.chain@[ib as int].id)); }")],
              ensures=[
                  ("C11,C06:a_persisted_cursor_is_clamped_into_the_recovered_chain",
                   "final(info).cur_block_idx <= final(info).chain.len() && final(info).cur_block_idx == (if (pos.cur_block_idx as usize) > old(info).chain.len() { old(info).chain.len() } else { pos.cur_block_idx as usize })"),
@@ -41,8 +45,8 @@ UNIT = dict(
                   "final(info).cur_block_idx < final(info).chain.len() ==> final(info).cur_block_offset <= final(info).chain@[final(info).cur_block_idx as int].used && (pos.cur_block_offset <= final(info).chain@[final(info).cur_block_idx as int].used ==> final(info).cur_block_offset == pos.cur_block_offset)"),
                  ("C06:hydration_changes_only_the_sealed_chain_cursor",
                   "final(info).chain@ == old(info).chain@ && final(info).tail_block_id == old(info).tail_block_id && final(info).tail_offset == old(info).tail_offset"),
-                 ("C06:exactly_the_blocks_before_the_cursor_and_a_fully_read_cursor_block_are_marked_consumed",
-                  "final(g).ckpt@ =~= old(g).ckpt@ + marked_by_cursor(old(info).chain@, final(info).cur_block_idx as int, final(info).cur_block_offset)"),
+                 ("C12,C06:hydration_marks_only_blocks_the_cursor_has_completely_behind_it",
+                  "final(g).ckpt@.len() >= old(g).ckpt@.len() && forall|k: int| old(g).ckpt@.len() <= k < final(g).ckpt@.len() ==> behind_cursor(final(info).chain@, final(info).cur_block_idx as int, final(info).cur_block_offset, #[trigger] final(g).ckpt@[k])"),
              ]),
     ],
 )
